@@ -7,6 +7,8 @@ R37b the "user still has another live connection" test counts entries other than
 R37c on the path where it was the user's last connection, the user is removed from every engine's
      active_users (loop over the engine map, pop/del by that user id).
 R37d ownership: the map is written only by user_subscribed_pubsub (acquire) and on_ws_disconnect.
+R37e the removal loop iterates the live engine map without suspending (no await in its body, or it iterates a snapshot):
+     a suspension lets an engine register/disconnect, the dict changes size and the loop aborts with the user still listed.
 Decides the pairing structure, not the behaviour of the pub/sub library that invokes the callbacks.
 """
 from __future__ import annotations
@@ -142,6 +144,20 @@ def _r37c_and_d(ctx, prog, f, acq, g):
         else:
             ctx.ok("R37c", "removal loop over engine map", {"rule": "R37c", "loop": loop.text()})
 
+    # ---- R37e: the removal loop runs to completion
+    ctx.rule("R37e", "the removal loop cannot be aborted half-way")
+    for loop in loops[:1]:
+        it = loop.ast.iter
+        snapshot = isinstance(it, ast.Call) and ((isinstance(it.func, ast.Name) and it.func.id in ("list", "tuple", "sorted"))
+                                                  or call_attr(it) == "copy")
+        awaits = [x for b in loop.ast.body for x in ast.walk(b) if isinstance(x, ast.Await)]
+        inst = "removal loop: no suspension while iterating the live engine map"
+        if snapshot or not awaits:
+            ctx.ok("R37e", inst)
+        else:
+            ctx.fail("R37e", f, awaits[0], inst, f"`{norm(awaits[0])[:70]}` suspends the coroutine inside the loop over the live engine map: an "
+                     "engine registering or disconnecting meanwhile changes the dict, the iteration raises RuntimeError and the user "
+                     "stays listed as active on the remaining process units although the last connection is gone")
     # ---- R37d ownership
     allowed = {f.qualname, acq.qualname, f"{CLS}.__init__"}
     writers = []
